@@ -11,7 +11,7 @@ from yamlfs import DIR
 
 from vinegar.data_source.yaml_target import YamlTargetSource
 
-CURRENT_VARIANTS = [1, 0, 0]      # tag_after, rerender, empty_raises  (what /repo does now)
+CURRENT_VARIANTS = [1, 0, 0, 0]      # tag_after, rerender, empty_raises, marker_compared  (what /repo does now)
 
 
 def run_real(c):
@@ -172,7 +172,8 @@ def limit_family():
     """legal inputs at and beyond every limit a hardening could pick: include chains of depth 16 / 17 / 40 / 100 with data
     at every level, wide include lists and wide top lists (17 / 40 / 100 files), long names, long keys and values,
     many keys, unusual characters in names, keys and values"""
-    out = []
+    # D25: a data file may be called like the marker that starts the list of parent files
+    out = [{"top.yaml": "'*': ['top file']\n", "top file.yaml": "t: 1\n"}]
     for depth in (16, 17, 40, 100):
         tree = {"top.yaml": "'*': [l1]\n"}
         for i in range(1, depth + 1):
@@ -206,7 +207,10 @@ def limit_family():
     out.append({"top.yaml": "'*': ['My File-1', 'd.Sub Dir.x_y', '\u00e9t\u00e9', '0', 'top file']\n", "My File-1.yaml": "a: 1\n",
                 "d/Sub Dir/x_y.yaml": "b: 1\ninclude: ['.z z']\n", "d/Sub Dir/z z.yaml": "c: 1\n", "\u00e9t\u00e9.yaml": "e: 1\n",
                 "0.yaml": "z: 0\n", "top file.yaml": "t: 1\n"})
-    out.append({"top.yaml": "'*': ['top file']\n", "top file.yaml": "t: 1\n"})
+    # ... and a real cycle through a file of that name is still a cycle
+    out.append({"top.yaml": "'*': ['top file']\n", "top file.yaml": "t: 1\ninclude: ['top file']\n"})
+    out.append({"top.yaml": "'*': [a]\n", "a.yaml": "include: ['top file']\n", "top file.yaml": "t: 1\ninclude: [a]\n"})
+    out.append({"top.yaml": "'*': [a, 'top file']\n", "a.yaml": "k: 1\ninclude: ['top file']\n", "top file.yaml": "t: 1\n"})
     out.append({"top.yaml": "'*': [a, b]\n",
                 "a.yaml": "\"ke y\": \"\\t tab \\x01 \\x7f \\xe9 \\n nl\"\n' ': ' '\n\"\\xa0\": 1\n'#': '#'\n'k:k': 'a: b'\n",
                 "b.yaml": "' ': {' ': ' '}\n'ke y': ''\n\"\\xa0\": ~\n"})
